@@ -295,3 +295,135 @@ Theorem engine_cancelled_not_always_returned_refuted :
     codes (elog c (large_step lg_fixed ex_fixed c) acts l_pristine x_init) = [2; 0; 0]%N.
 Proof. exact cancelled_not_always_returned_refuted_lemma. Qed.
 Print Assumptions engine_cancelled_not_always_returned_refuted.
+
+From V Require Import GenResetOrder ResetRace ResetRaceLemmas ResetRaceOrder.
+
+(* ---- reset() against the timer thread (model ResetRace.v) -------------------------------------------
+   Quantifiers: [order] -- every order of the sub-steps _delayQueue.reset() / _externalQueue.reset() /
+   _internalQueue.reset() of InterpreterImpl::reset() (any list, repetitions and omissions included);
+   [ext int pend targets cb] -- every state at the moment reset() is called: any events in both queues,
+   ANY NUMBER of pending delayed sends (deliverable or not), the timer thread idle or anywhere inside a
+   callback; [sched] -- every interleaving of the resetting thread, the timer thread (a pending timer
+   may become due at any moment) and, after the return, step(); any length.  [v] -- the code with
+   (rv_fixed) or without (rv_code) patches/C10-reset-inflight-callback.diff; the variant and the order of
+   the working tree are regenerated from the source (GenResetOrder.v, rv_gen).
+   Not covered: receive()/send by a third thread while reset() runs; step() concurrent with reset();
+   delayed sends of the NEW life (the restarted machine sends nothing in this model); the micro-stepper
+   and data-model side of reset() (Lifecycle.v, theorem reset_like_fresh above, has those, atomically). *)
+
+(* U, every order with delay_firstb (somewhere the timers are cancelled and after that both queues are
+   emptied), both variants, every state at the call, every schedule.  Once reset() has returned: both
+   queues are empty, no timer is pending, the timer thread holds nothing it could still deliver, and
+   nothing was processed.  For the code without the repair this needs that the run did not go through
+   the window [r_raced] (a callback past its critical section 1 when the timers were cancelled); for the
+   repaired variant there is no side condition. *)
+Theorem reset_leaves_nothing_behind :
+  forall v order ext int pend targets cb sched,
+    delay_firstb order = true ->
+    let s := rr_run v (rr_at_call order ext int pend targets cb) sched in
+    returned s = true ->
+    rv_locks_targets v = true \/ r_raced s = false ->
+    nothing_leftb s = true /\ r_processed s = [].
+Proof. exact reset_leaves_nothing_behind_lemma. Qed.
+Print Assumptions reset_leaves_nothing_behind.
+
+(* U, same hypotheses.  ... and it stays so under every continuation [sched2] (timer thread, step()):
+   no event of the previous life is ever queued or processed afterwards, and queues, timers and
+   processed events are those of a fresh interpreter under the same continuation. *)
+Theorem reset_like_fresh_concurrent :
+  forall v order ext int pend targets cb sched,
+    delay_firstb order = true ->
+    let s := rr_run v (rr_at_call order ext int pend targets cb) sched in
+    returned s = true ->
+    rv_locks_targets v = true \/ r_raced s = false ->
+    forall sched2, let s' := rr_run v s sched2 in
+      nothing_leftb s' = true /\ r_processed s' = []
+      /\ rr_core s' = rr_core (rr_run v rr_fresh sched2).
+Proof. exact reset_like_fresh_concurrent_lemma. Qed.
+Print Assumptions reset_like_fresh_concurrent.
+
+(* refuted: the order internal, external, delay (the reordering of seeded/C10-c).  One pending delayed
+   send, timer thread idle at the call: the timer fires between _externalQueue.reset() and
+   _delayQueue.reset(); reset() returns with the stale event in the external queue (never in the window
+   r_raced) and the next step() processes it.  Both variants.  (witness by vm_compute) *)
+Theorem reset_order_matters_refuted :
+  forall v, exists pend targets sched,
+    let s := rr_run v (rr_at_call bad_order [] [] pend targets CbIdle) sched in
+    returned s = true /\ r_raced s = false /\ r_ext s = [EvTimer 7]
+    /\ r_processed (rr_step v s AStep) = [EvTimer 7].
+Proof. exact reset_order_matters_refuted_lemma. Qed.
+Print Assumptions reset_order_matters_refuted.
+
+(* refuted, same order, an undeliverable delayed send: its error event ends in the INTERNAL queue of the
+   restarted machine (and the wake-up event in the external queue). *)
+Theorem reset_order_matters_internal_refuted :
+  forall v, exists sched,
+    let s := rr_run v (rr_at_call bad_order [] [] [7%N] [(7%N, KError)] CbIdle) sched in
+    returned s = true /\ r_raced s = false /\ r_int s = [EvError 7] /\ r_ext s = [EvUnblock].
+Proof. exact reset_order_matters_internal_refuted_lemma. Qed.
+Print Assumptions reset_order_matters_internal_refuted.
+
+(* U: delay_firstb is exactly the boundary.  For EVERY order without it (both variants) there is a
+   state at the call with the timer thread idle and a schedule, never in the window r_raced and never
+   dead-locked, after which reset() has returned and something of the previous life is left. *)
+Theorem delay_first_necessary :
+  forall v order, delay_firstb order = false ->
+    exists ext int pend targets sched,
+      let s := rr_run v (rr_at_call order ext int pend targets CbIdle) sched in
+      returned s = true /\ r_raced s = false /\ r_blocked s = false /\ nothing_leftb s = false.
+Proof. exact delay_first_necessary_lemma. Qed.
+Print Assumptions delay_first_necessary.
+
+(* refuted for the code WITHOUT patches/C10-reset-inflight-callback.diff, with the right order: the timer
+   fires just before reset() is called; its callback has left its critical section (the entry is out of
+   _callbackData) when _delayQueue.reset() runs, which finds nothing to cancel; reset() returns with both
+   queues empty; then the callback calls eventReady, finds its uuid in _delayedEventTargets (reset() did
+   not clear it) and delivers; step() processes the event.  So the side condition on r_raced cannot be
+   dropped for rv_code.  Replayed on the implementation: tools/props/c10.py, class reset-inflight-callback. *)
+Theorem reset_inflight_refuted :
+  exists sched sched2,
+    let s := rr_run rv_code (rr_at_call [ResetDelay; ResetExternal; ResetInternal] [] [] [7%N] [(7%N, KDeliver)] CbIdle) sched in
+    returned s = true /\ nothing_leftb s = false /\ r_ext s = [] /\ r_int s = []
+    /\ r_processed (rr_run rv_code s sched2) = [EvTimer 7].
+Proof. exact reset_inflight_refuted_lemma. Qed.
+Print Assumptions reset_inflight_refuted.
+
+(* refuted, both variants (bounded-time part of C10): reset() called while a callback has been entered
+   but has not reached its critical section -- cancelAllDelayed holds _mutex inside event_del, which
+   waits for the callback, which waits for _mutex: reset() never returns.  This is the known finding
+   C09-deadlock (theorems no_deadlock_window_refuted in Properties_C09.v) seen from reset(). *)
+Theorem reset_returns_refuted :
+  forall v, exists sched, forall sched2,
+    let s := rr_run v (rr_run v (rr_at_call [ResetDelay; ResetExternal; ResetInternal] [] [] [7%N] [(7%N, KDeliver)] CbIdle) sched) sched2 in
+    r_blocked s = true /\ returned s = false.
+Proof. exact reset_returns_refuted_lemma. Qed.
+Print Assumptions reset_returns_refuted.
+
+(* the hypotheses are satisfiable by a non-trivial run: two pending timers (one deliverable, one not),
+   events in both queues, one timer fires and delivers while reset() is under way, the other is cancelled *)
+Theorem reset_race_nonvacuous_example :
+  let s0 := rr_at_call [ResetDelay; ResetExternal; ResetInternal] [EvOther 1] [EvOther 2] [7%N; 8%N]
+                       [(7%N, KDeliver); (8%N, KError)] CbIdle in
+  delay_firstb (r_todo s0) = true
+  /\ (let mid := rr_run rv_fixed s0 [AFire 7; ATimer; ATimer] in r_ext mid = [EvOther 1; EvTimer 7] /\ r_pend mid = [8%N])
+  /\ (let s := rr_run rv_fixed s0 [AFire 7; ATimer; ATimer; AReset; AFire 8; ATimer; AReset; ATimer; AReset; AReset; AStep] in
+      returned s = true /\ nothing_leftb s = true /\ r_processed s = [] /\ r_blocked s = false)
+  /\ (let s := rr_run rv_code s0 [AFire 7; ATimer; ATimer; AReset; AFire 8; AReset; AReset; AStep] in
+      returned s = true /\ r_raced s = false /\ nothing_leftb s = true).
+Proof. exact reset_race_nonvacuous. Qed.
+Print Assumptions reset_race_nonvacuous_example.
+
+(* VERDICT about the working tree: the repair is in place (reset() takes _delayMutex and clears
+   _delayedEventTargets before it cancels the timers), so reset_leaves_nothing_behind applies to
+   rv_gen without side condition.  Computed here: breaks when the lock or the clear() is removed. *)
+Theorem gen_reset_locks_targets_ok : rv_locks_targets rv_gen = true.
+Proof. exact (eq_refl true). Qed.
+Print Assumptions gen_reset_locks_targets_ok.
+
+(* VERDICT about the working tree: InterpreterImpl::reset() could be read by the translator and the order
+   of its three calls (GenResetOrder.reset_order, regenerated from the source at every check) cancels the
+   timers before it empties the queues.  Computed here (eq_refl): THIS is the obligation that breaks when
+   the source is reordered; it is the last theorem of the file so that the failure names it. *)
+Theorem gen_reset_order_ok : reset_order_source_ok = true /\ delay_firstb reset_order = true.
+Proof. exact (reset_order_verdict reset_order_source_ok reset_order (eq_refl true)). Qed.
+Print Assumptions gen_reset_order_ok.
